@@ -213,7 +213,7 @@ void h_force_disconnect(void) { struct ll* s; W_state = nondet_int(); W_reason =
 UNITS.append(dict(name='force_disconnect', extracts=FD_EX, code=FD_CODE, enforce=['force_disconnect'], replace=[]))
 # link_layer::adv_received (contract in lle.py): 'connection requested' is reported once per accepted connection request, after the connection data was renewed
 import lle
-UNITS.append(lle.unit(['adv_received'], name='connect'))
+UNITS.append(lle.unit(['adv_received', 'll_end_event'], name='connect'))
 META = dict(
     level='other',
     explanation="The mechanism between the link layer (interrupt context) and the application's call backs, connection_callbacks.hpp, real bodies: every producer "
@@ -225,11 +225,12 @@ META = dict(
                 "(FIFO order, lossless up to its capacity) is C30. link_layer::force_disconnect reports 'attempt timed out' exactly for a connection that never "
                 "saw a connection event and 'closed' with the recorded reason otherwise, exactly one of them once, and resets the encryption state. link_layer::adv_received "
                 "reports 'connection requested' exactly once for an accepted connection request (valid channel map and timing), after buffers and connection data were renewed, "
-                "and never otherwise. "
+                "and never otherwise; link_layer::end_event reports 'connection established' exactly when the first connection event of a connection ends (state connecting), once. "
                 "The clause 'the event is not lost' fails for a full ring: known finding F-C29 (reproduced natively).",
     assumptions=["NOT decided: the order in which the link layer calls the producers over a whole connection life time (requested at the connect request, "
                  "established at the first connection event, closed / attempt_timeout from force_disconnect only) - adv_received and force_disconnect are under contract, the "
-                 "'established' / 'changed' producers are called from setup_next_connection_event / handle_pending_ll_control, whose call sites are read",
+                 "'established' producer is called from end_event (under contract here), 'changed' from handle_pending_ll_control (under contract in C21); that the radio calls the link layer's "
+                 "functions in the order adv_received, end_event / timeout ..., force_disconnect is scheduling, not proved",
                  "connection_details / connection_addresses are copied as opaque values (a tag stands for their content); the SFINAE wrappers call_ll_...< T > "
                  "are represented by abstract call backs (they call T::ll_... if T has it, nothing otherwise)",
                  "events_ is represented by an abstract queue with the try_push / try_pop behaviour C30 proves for the real ring"],
